@@ -435,6 +435,116 @@ def lower_fn(toks, kind, needle, fname, second):
     return lw.stmts, lw.notes
 
 
+class LowerViews:
+    """by-reference bodies: raw pointers derived from `self` / from an earlier view, and the references built from them"""
+    def __init__(self, ret_ty, assoc, second, recv_mut):
+        self.ret_ty, self.assoc, self.second, self.recv_mut = ret_ty, assoc, second, recv_mut
+        self.ptr_ix, self.view_ix = {}, {}
+        self.pending = {}
+        self.stmts = []
+
+    def view_len(self, ty):
+        ty = ty.strip()
+        if ty.startswith("Self::") and ty[6:] in self.assoc:
+            ty = self.assoc[ty[6:]]
+        for pre in ("&'amut", "&'a", "&mut", "&"):
+            if ty.startswith(pre):
+                ty = ty[len(pre):]
+                break
+        else:
+            raise Cant("view type %s" % ty)
+        return ty_len(ty, self.assoc, self.second)
+
+    def ptr_expr(self, ast):
+        """-> (pointer local index, extra element offset LX)"""
+        if ast[0] == "paren":
+            return self.ptr_expr(ast[1])
+        if ast[0] == "path" and ast[1] in self.ptr_ix:
+            return self.ptr_ix[ast[1]], "(.lit 0)"
+        if ast[0] == "cast" and ast[2].replace(" ", "") in ("*const_", "*mut_", "_", "*constT", "*mutT"):
+            return self.ptr_expr(ast[1])
+        if ast[0] == "method" and ast[2] in ("add", "offset") and len(ast[3]) == 1:
+            p, off = self.ptr_expr(ast[1])
+            return p, add(off, lx(ast[3][0], self.second))
+        raise Cant("pointer expression %r" % (ast,))
+
+    def stmt(self, st):
+        if st[0] != "let" or st[1][0] != "pbind" or st[2] is None:
+            raise Cant("statement %s" % st[0])
+        name, init = st[1][1], st[2]
+        if init[0] == "method" and init[2] in ("as_ptr", "as_mut_ptr") and not init[3] and init[1][0] == "path":
+            wr = "true" if init[2] == "as_mut_ptr" else "false"
+            ty = (st[3] or "").replace(" ", "")
+            if ty and ty not in ("*constT", "*mutT"):
+                raise Cant("pointer type %s" % ty)
+            ix = len(self.ptr_ix)
+            if init[1][1] == "self":
+                self.stmts.append(".ptrSelf %d %s" % (ix, wr))
+            elif init[1][1] in self.view_ix:
+                self.stmts.append(".ptrOfView %d %d %s" % (ix, self.view_ix[init[1][1]], wr))
+            else:
+                raise Cant("pointer source %s" % init[1][1])
+            self.ptr_ix[name] = ix
+            return
+        if init[0] == "un" and init[1] in ("&", "&mut") and init[2][0] == "un" and init[2][1] == "*":
+            p, off = self.ptr_expr(init[2][2])
+            ix = len(self.view_ix)
+            self.view_ix[name] = ix
+            self.pending[name] = (len(self.stmts), ix, p, off, "true" if init[1] == "&mut" else "false")
+            self.stmts.append(None)
+            return
+        if init[0] == "method" and init[2] in ("add", "offset") and len(init[3]) == 1:
+            p, off = self.ptr_expr(init)
+            ix = len(self.ptr_ix)
+            self.stmts.append(".ptrAdd %d %d %s" % (ix, p, off))
+            self.ptr_ix[name] = ix
+            return
+        raise Cant("let %s = …" % name)
+
+    def block(self, blk):
+        for st in blk[1]:
+            self.stmt(st)
+        tail = blk[2]
+        if tail is None:
+            raise Cant("no value")
+        if tail[0] == "block":
+            return self.block(tail)
+        if tail[0] != "tuple":
+            raise Cant("value %s" % tail[0])
+        t = self.ret_ty
+        tys = split_args(t[1:-1]) if t.startswith("(") else [t]
+        if len(tys) != len(tail[1]):
+            raise Cant("tuple arity")
+        vs = []
+        for comp, ty in zip(tail[1], tys):
+            if comp[0] != "path" or comp[1] not in self.pending:
+                raise Cant("tuple component")
+            pos, ix, p, off, wr = self.pending.pop(comp[1])
+            self.stmts[pos] = ".viewAt %d %d %s %s %s" % (ix, p, off, self.view_len(ty), wr)
+            vs.append(ix)
+        if self.pending:
+            raise Cant("a view that is not returned")
+        self.stmts.append(".retViews [%s]" % ", ".join(str(v) for v in vs))
+
+
+VIEW_FUNCS = [
+    ("splitRef", "Split<T,K>for&'aGenericArray<T,N>", "split", "K", False),
+    ("splitMut", "Split<T,K>for&'amutGenericArray<T,N>", "split", "K", True),
+]
+
+
+def lower_view_fn(toks, needle, fname, second, recv_mut):
+    cont = [x for x in items(toks, "impl") if needle in x.header_text()]
+    if not cont:
+        raise Cant("impl %s not found" % needle)
+    cont = cont[0]
+    f = find_fn(toks, fname, cont.lo, cont.hi)
+    params, ret = fn_sig(f)
+    lw = LowerViews(ret, assoc_types(toks, cont), second, recv_mut)
+    lw.block(rsbody.parse_body(f.body))
+    return lw.stmts
+
+
 def par_map(params):
     out = {}
     seen_arg = False
@@ -464,6 +574,15 @@ def main():
             status[lean] = {"status": "unlowered", "reason": "%s: %s" % (type(e).__name__, str(e)[:200])}
             print("NOTE body-unlowered fn=sequence.rs:%s reason=%s" % (fname, status[lean]["reason"]))
         defs.append("/-- `%s` (src/sequence.rs), every statement in source order -/\ndef %s : List Stmt := [\n  %s]\n" % (fname, lean, ",\n  ".join(stmts)))
+    for lean, needle, fname, second, recv_mut in VIEW_FUNCS:
+        try:
+            stmts = lower_view_fn(toks, needle, fname, second, recv_mut)
+            status[lean] = {"status": "ok", "notes": [], "statements": len(stmts)}
+        except (Cant, Unparsed, StopIteration, IndexError, KeyError) as e:
+            stmts = [".opaque"]
+            status[lean] = {"status": "unlowered", "reason": "%s: %s" % (type(e).__name__, str(e)[:200])}
+            print("NOTE body-unlowered fn=sequence.rs:%s(%s) reason=%s" % (fname, "&mut" if recv_mut else "&", status[lean]["reason"]))
+        defs.append("/-- `%s` on `%sGenericArray` (src/sequence.rs), every statement in source order -/\ndef %s : List VStmt := [\n  %s]\n" % (fname, "&mut " if recv_mut else "&", lean, ",\n  ".join(stmts)))
     out = "-- GENERATED by tools/seqbody.py from /repo/src/sequence.rs — do not edit.\nimport GA.Model.MemBody\nnamespace GA.Gen.SeqBody\nopen GA.MemBody\n\n"
     out += "\n".join(defs)
     out += "\nend GA.Gen.SeqBody\n"
@@ -478,7 +597,7 @@ def main():
             f.write(out)
     os.makedirs(BUILD, exist_ok=True)
     json.dump(status, open(os.path.join(BUILD, "seqbody_status.json"), "w"), indent=1, sort_keys=True)
-    print("seqbody: %d bodies, %d unlowered" % (len(FUNCS), sum(1 for v in status.values() if v["status"] != "ok")))
+    print("seqbody: %d bodies, %d unlowered" % (len(FUNCS) + len(VIEW_FUNCS), sum(1 for v in status.values() if v["status"] != "ok")))
 
 
 if __name__ == "__main__":
